@@ -377,3 +377,21 @@ Proof.
   apply (run_ok_no_long_run N (flat_map bcontrib l) 0) with (a := a) (b := b); [|exact E].
   apply (scope_sound N l None 0 Hs); [reflexivity|exact Hk].
 Qed.
+
+(** ** the ends of the file: the line breaks that open and close the output are the nl_count of the first / last
+    NEWLINE chunk (what newlines_eat_start_end() sets from nl_start_of_file / nl_end_of_file and their minima) *)
+Theorem file_end_breaks o last sp l c :
+  last <> 13%Z -> Forall (crfree) (l ++ [c]) -> ck c = CKNewline ->
+  flat_map bv (render o last sp (l ++ [c])) = flat_map bcontrib l ++ repeat true (Z.to_nat (nl_count c)).
+Proof.
+  intros Hl Hc Hk. rewrite (render_breaks o last sp (l ++ [c]) Hl Hc), flat_map_app. cbn [flat_map].
+  rewrite app_nil_r. unfold bcontrib at 2. rewrite Hk. reflexivity.
+Qed.
+
+Theorem file_start_breaks o last sp l c :
+  last <> 13%Z -> Forall (crfree) (c :: l) -> ck c = CKNewline ->
+  flat_map bv (render o last sp (c :: l)) = repeat true (Z.to_nat (nl_count c)) ++ flat_map bcontrib l.
+Proof.
+  intros Hl Hc Hk. rewrite (render_breaks o last sp (c :: l) Hl Hc). cbn [flat_map].
+  unfold bcontrib at 1. rewrite Hk. reflexivity.
+Qed.
